@@ -1,4 +1,4 @@
-use anyhow::Result;
+use anyhow::{Result, ensure};
 use bitvec_helpers::bitstream_io_reader::BsIoSliceReader;
 
 use super::UserDataTypeStruct;
@@ -52,8 +52,17 @@ impl ST2094_10CmData {
 
         let coefficient_log2_denom_length = meta.coefficient_log2_denom as u32;
 
+        // Bit depths are in [8, 16]
+        ensure!(meta.bl_bit_depth_minus8 <= 8, "Invalid bl_bit_depth_minus8");
+        ensure!(meta.el_bit_depth_minus8 <= 8, "Invalid el_bit_depth_minus8");
+        ensure!(meta.hdr_bit_depth_minus8 <= 8, "Invalid hdr_bit_depth_minus8");
+
         for cmp in 0..NUM_COMPONENTS {
             meta.num_pivots_minus2[cmp] = reader.get_ue()?;
+            ensure!(
+                meta.num_pivots_minus2[cmp] < reader.available()? / 8,
+                "num_pivots_minus2 exceeds the remaining data"
+            );
 
             meta.pred_pivot_value[cmp]
                 .resize_with((meta.num_pivots_minus2[cmp] as usize) + 2, Default::default);
@@ -91,6 +100,10 @@ impl ST2094_10CmData {
                 // MAPPING_POLYNOMIAL
                 if meta.mapping_idc[cmp][pivot_idx] == 0 {
                     meta.poly_order_minus1[cmp][pivot_idx] = reader.get_ue()?;
+                    ensure!(
+                        meta.poly_order_minus1[cmp][pivot_idx] < reader.available()?,
+                        "poly_order_minus1 exceeds the remaining data"
+                    );
 
                     meta.poly_coef_int[cmp][pivot_idx].resize_with(
                         (meta.poly_order_minus1[cmp][pivot_idx] as usize) + 2,
